@@ -4,8 +4,8 @@ from common import *
 import decl
 
 PID = 'C09'
-TARGETS = ['Properties/C09.vo', 'Bridge/DeferredBridge.vo']
-KERNELS = ['G13_deferred']
+TARGETS = ['Properties/C09.vo', 'Bridge/DeferredBridge.vo', 'Bridge/PlumbingBridge.vo']
+KERNELS = ['G13_deferred', 'G13b_deferred_ops']
 PROP_FILE = 'Properties/C09.v'
 
 INT_BOPS = ['Add', 'Sub', 'Mul', 'FloorDiv', 'Mod', 'Le', 'Lt', 'Ge', 'Gt', 'Eq', 'Ne', 'BAnd', 'BOr', 'BXor', 'RShift', 'LShift']
